@@ -13,7 +13,26 @@ Open Scope N_scope.
 
 Section Typed.
 Variable T : idl.
-Local Notation typed_ok := (CThriftTyped.typed_ok T).
+Variable fids : list Z.
+Hypothesis Hasc : asc 0 fids.
+Local Notation w_thrift := (CThrift.w_thrift fids).
+Local Notation t_thrift := (CThriftSpec.t_thrift fids).
+Local Notation w_top := (CThrift.w_top fids).
+Local Notation t_top := (CThriftSpec.t_top fids).
+Local Notation ser := (CThrift.ser fids).
+Local Notation to_bytes := (CThrift.to_bytes fids).
+Local Notation dom := (CThriftSpec.dom fids).
+Local Notation w_thrift_spec := (CThriftProofs.w_thrift_spec fids Hasc).
+Local Notation ser_spec := (CThriftProofs.ser_spec fids Hasc).
+Local Notation t_good := (CThriftRoundtrip.t_good fids Hasc).
+Local Notation t_eq := (CThriftRoundtrip.t_eq fids Hasc).
+Local Notation to_bytes_fits := (CThriftRoundtrip.to_bytes_fits fids).
+Local Notation t_thrift_S := (CThriftRoundtrip.t_thrift_S fids).
+Local Notation dom_fields := (CThriftRoundtrip.dom_fields fids).
+Local Notation t_dict := (CThriftRoundtrip.t_dict fids).
+Local Notation ser_dict := (CThriftMain.ser_dict fids Hasc).
+Local Notation roundtrip := (CThriftMain.roundtrip fids Hasc).
+Local Notation typed_ok := (CThriftTyped.typed_ok T fids).
 
 Lemma conforms_list e ety l : conforms T lenient (FList e) (TList ety l) =
   (ety_matches e ety || (lenient_empty lenient && (ety =? 0) && match l with [] => true | _ => false end)) &&
@@ -195,18 +214,18 @@ Proof.
   rewrite t_thrift_S in E. set (td := t_dict k) in E.
   assert (Htd : td_conf td).
   { intros d' n' x t' Hx Ex. destruct x as [| | | | | | |a' b' c']; try discriminate Ex. apply (IH d' n' a' b' c' t' Hx Ex). }
-  destruct (t_fields (t_field td a b) ids13 c) as [l|] eqn:El; [|discriminate]. injection E as <-.
+  destruct (t_fields (t_field td a b) fids c) as [l|] eqn:El; [|discriminate]. injection E as <-.
   rewrite conforms_struct. destruct (find_struct (structs T) n) as [sd|]; [|discriminate Hok].
   apply andb_true_iff in Hok. destruct Hok as [Hok Hun]. apply andb_true_iff in Hok. destruct Hok as [Hfl Hreq].
-  rewrite (increasing_none _ _ (t_fields_increasing (t_field td a b) c ids13 0%Z l ltac:(lia) ids13_asc El)).
-  rewrite (t_fields_length (t_field td a b) c ids13 l El). rewrite Hun. rewrite !andb_true_r.
+  rewrite (increasing_none _ _ (t_fields_increasing (t_field td a b) c fids 0%Z l ltac:(lia) Hasc El)).
+  rewrite (t_fields_length (t_field td a b) c fids l El). rewrite Hun. rewrite !andb_true_r.
   apply andb_true_iff. split.
   - apply forallb_forall. intros p Hp.
     pose proof (t_fields_Forall (t_field td a b) c
-      (fun id t => match find_field (s_fields sd) id with Some f => conforms T lenient (f_ty f) t = true | None => False end) ids13 l) as HF.
+      (fun id t => match find_field (s_fields sd) id with Some f => conforms T lenient (f_ty f) t = true | None => False end) fids l) as HF.
     assert (HQ : Forall (fun p => match find_field (s_fields sd) (fst p) with Some f => conforms T lenient (f_ty f) (snd p) = true | None => False end) l).
     { apply HF; [|exact El]. intros i v t Hin Hl Hn Et.
-      pose proof (proj1 (forallb_forall _ ids13) Hfl i Hin) as Hi. cbn beta in Hi. rewrite Hl in Hi.
+      pose proof (proj1 (forallb_forall _ fids) Hfl i Hin) as Hi. cbn beta in Hi. rewrite Hl in Hi.
       destruct (find_field (s_fields sd) (Z.to_N i)) as [f|].
       - destruct v; try congruence; apply (field_conf td d a b i (f_ty f) _ t Htd Hi Et).
       - destruct v; try congruence; discriminate Hi. }
@@ -216,7 +235,7 @@ Proof.
     pose proof (proj1 (forallb_forall _ (s_fields sd)) Hreq f Hf) as Hr. cbn beta in Hr.
     destruct (negb (f_req f =? 1)); [reflexivity|]. cbn [orb] in Hr |- *.
     apply andb_true_iff in Hr. destruct Hr as [Hin Hp].
-    rewrite <- (N2Z.id (f_id f)). apply (t_fields_present (t_field td a b) c ids13 l (Z.of_N (f_id f)) El (existsb_In _ _ Hin) Hp).
+    rewrite <- (N2Z.id (f_id f)). apply (t_fields_present (t_field td a b) c fids l (Z.of_N (f_id f)) El (existsb_In _ _ Hin) Hp).
 Qed.
 
 (* the bytes to_bytes emits for a typed_ok object are the encoding of an IDL-conformant tree *)
